@@ -253,7 +253,7 @@ func (t *Trace) brief(max int) string {
 		case "note":
 			fmt.Fprintf(&sb, "%d:note(%s %s) ", e.Seq, e.Actor, e.Text)
 		default:
-			fmt.Fprintf(&sb, "%d:%s/%s.%s", e.Seq, e.Actor, e.Kind, e.Call)
+			fmt.Fprintf(&sb, "%d@%.0fms:%s/%s.%s", e.Seq, float64(e.TNs)/1e6, e.Actor, e.Kind, e.Call)
 			if e.Proc != "" && e.Actor == "sup" {
 				fmt.Fprintf(&sb, "[%s]", e.Proc)
 			}
@@ -294,7 +294,11 @@ func min(a, b int) int {
 // diag bundles what goes next to a replay file.
 func (r *HostRun) diag() string {
 	var sb strings.Builder
-	fmt.Fprintf(&sb, "exit=%d died=%v timedOut=%v wallMs=%d\n--- stderr\n%s\n", r.ExitCode, r.Died, r.TimedOut, r.WallMs, r.Stderr)
+	lag := 0.0
+	if r.Trace != nil {
+		lag = r.Trace.MaxLagMs
+	}
+	fmt.Fprintf(&sb, "exit=%d died=%v timedOut=%v wallMs=%d maxLagMs=%.1f\n--- stderr\n%s\n", r.ExitCode, r.Died, r.TimedOut, r.WallMs, lag, r.Stderr)
 	if r.Dump != "" {
 		fmt.Fprintf(&sb, "--- goroutine dump\n%s\n", r.Dump)
 	}
@@ -302,4 +306,10 @@ func (r *HostRun) diag() string {
 		fmt.Fprintf(&sb, "--- trace tail\n%s\n", r.Trace.brief(120))
 	}
 	return sb.String()
+}
+
+// starved tells whether the host process itself was starved of CPU badly enough (wake-up lag of a 1 ms sleep above a
+// quarter of the function timeout) that a timeout outcome of an otherwise healthy invocation says nothing.
+func (r *HostRun) starved(timeoutMs int64) bool {
+	return r.Trace != nil && r.Trace.MaxLagMs > float64(timeoutMs)/4
 }
